@@ -18,6 +18,8 @@ from vcheck.core import Task, Violation
 ID = 'C17'
 LEVEL = 'exploration'
 BUDGET = {'quick': 45, 'thorough': 420}
+# deterministic sub-checks repeated in a `python -O` child (core.optimized_child)
+OPT_SUBS = ('conv/exhaustive', 'compat/chain', 'predicate/table', 'conv/suffix', 'predicate/malformed')
 RULE = ('conv/*: every component tuple of length 1..5 over {0,1,9,10,99,100,'
         '999} with a non-zero head (exhaustive: round trip for str and tuple '
         'input, convert_version_to_tuple, and strict monotonicity of the '
